@@ -7,9 +7,12 @@ import (
 	"encoding/json"
 	"fmt"
 	"math/rand"
+	"os"
+	"os/exec"
 	"reflect"
 	"sort"
 	"strings"
+	"sync"
 	"testing"
 
 	"github.com/samsarahq/thunder/diff"
@@ -362,6 +365,7 @@ func TestCheck(t *testing.T) {
 	run.Assume("vlib.MergeTS is a faithful port of client/src/merge.ts (validated against node when VERIF_NODE_CROSSCHECK=1)")
 	n := run.N(30000, 2000000)
 	par := 8
+	defer crossCheckPort(run)
 	run.Each(n, par, func(i int) {
 		r := run.Rand("pair", i)
 		g := &gen{r: r}
@@ -432,6 +436,7 @@ func checkPair(run *vlib.Run, i int, old, nw interface{}) {
 	for f := range feats {
 		run.Count("delta_feature:"+f, 1)
 	}
+	collectForNode(i, so, dj)
 	if d == nil {
 		run.Count("nil_delta", 1)
 		if vlib.Canon(so) != want {
@@ -479,3 +484,98 @@ func checkPair(run *vlib.Run, i int, old, nw interface{}) {
 // classifyGo names nothing: no C03 defect is recorded as known; every
 // mismatch is an unclassified violation.
 func classifyGo(dj interface{}) string { return "" }
+
+// ---- validation of the merge.ts port against the real client/src/merge.ts under node (when available) ----
+
+type nodeCase struct {
+	Old   interface{} `json:"old"`
+	Delta interface{} `json:"delta"`
+}
+
+var (
+	nodeMu    sync.Mutex
+	nodeCases []nodeCase
+)
+
+func collectForNode(i int, so, dj interface{}) {
+	if i%50 != 0 || dj == nil {
+		return
+	}
+	nodeMu.Lock()
+	if len(nodeCases) < 5000 {
+		nodeCases = append(nodeCases, nodeCase{Old: vlib.DeepCopyJSON(so), Delta: vlib.DeepCopyJSON(dj)})
+	}
+	nodeMu.Unlock()
+}
+
+// crossCheckPort runs the collected (old, delta) pairs through the real
+// merge.ts and compares with vlib.MergeTS. A disagreement means the port (the
+// harness) is wrong, never thunder.
+func crossCheckPort(run *vlib.Run) {
+	node, err := exec.LookPath("node")
+	if err != nil {
+		run.Set("merge_ts_port_validated_against_node", "node not installed: port not cross-checked in this run")
+		return
+	}
+	src, err := os.ReadFile("/repo/client/src/merge.ts")
+	if v := os.Getenv("VERIF_REPO"); v != "" {
+		src, err = os.ReadFile(v + "/client/src/merge.ts")
+	}
+	if err != nil {
+		run.Set("merge_ts_port_validated_against_node", "merge.ts not readable")
+		return
+	}
+	js := strings.NewReplacer("export function", "function", ": any", "").Replace(string(src))
+	dir, err := os.MkdirTemp(os.Getenv("VERIF_WORK"), "c03node")
+	if err != nil {
+		return
+	}
+	defer os.RemoveAll(dir)
+	nodeMu.Lock()
+	cases := nodeCases
+	nodeMu.Unlock()
+	in, _ := json.Marshal(cases)
+	_ = os.WriteFile(dir+"/cases.json", in, 0o644)
+	script := js + `
+const fs = require("fs");
+const cases = JSON.parse(fs.readFileSync(process.argv[2], "utf8"));
+const out = cases.map(c => { try { const r = merge(c.old, c.delta); return {ok: true, hasUndef: JSON.stringify(r, (k, v) => v === undefined ? "__UNDEF__" : v).includes("__UNDEF__"), v: r === undefined ? null : r}; } catch (e) { return {ok: false, err: String(e)}; } });
+fs.writeFileSync(process.argv[3], JSON.stringify(out));
+`
+	_ = os.WriteFile(dir+"/run.js", []byte(script), 0o644)
+	cmd := exec.Command(node, dir+"/run.js", dir+"/cases.json", dir+"/out.json")
+	if b, err := cmd.CombinedOutput(); err != nil {
+		run.Set("merge_ts_port_validated_against_node", "node run failed: "+vlib.Trunc(string(b), 300))
+		return
+	}
+	ob, _ := os.ReadFile(dir + "/out.json")
+	var outs []struct {
+		OK       bool        `json:"ok"`
+		HasUndef bool        `json:"hasUndef"`
+		V        interface{} `json:"v"`
+		Err      string      `json:"err"`
+	}
+	if err := json.Unmarshal(ob, &outs); err != nil || len(outs) != len(cases) {
+		run.Set("merge_ts_port_validated_against_node", "node output unreadable")
+		return
+	}
+	disagree := 0
+	for k, c := range cases {
+		port, perr := vlib.MergeTS(vlib.DeepCopyJSON(c.Old), vlib.DeepCopyJSON(c.Delta))
+		switch {
+		case perr != nil && !outs[k].OK:
+		case perr != nil || !outs[k].OK:
+			disagree++
+		case vlib.HasUndefined(port) != outs[k].HasUndef:
+			disagree++
+		case !outs[k].HasUndef && vlib.Canon(port) != vlib.Canon(outs[k].V):
+			disagree++
+		}
+		if disagree == 1 && (perr != nil || !outs[k].OK || vlib.Canon(port) != vlib.Canon(outs[k].V)) {
+			run.Broken(fmt.Sprintf("vlib.MergeTS disagrees with the real merge.ts on old=%s delta=%s: port=%s (%v) node=%s (%s)", js1(c.Old), js1(c.Delta), js1(port), perr, js1(outs[k].V), outs[k].Err))
+		}
+	}
+	run.Set("merge_ts_port_validated_against_node", map[string]interface{}{"pairs": len(cases), "disagreements": disagree})
+}
+
+func js1(v interface{}) string { return js(v) }
